@@ -4,6 +4,7 @@ import Rbql.Model.ReaderPy
 import Rbql.Model.ReaderJs
 import Rbql.Model.Writer
 import Rbql.Model.Like
+import Rbql.Model.PyString
 import Driver.Codec
 import Driver.EngineOps
 open Rbql Driver
@@ -97,6 +98,11 @@ def step (line : String) : String :=
           let t := if enc == "none" then text else univNewlines text
           encRead (readAll (mkCfg pol enc (toString (t.length + 1)) d "~") false none (if t.isEmpty then [] else [t]))
       s!"{encWrite w} | {rd}"
+  | ["pyescape", q, name] => encStr (pyEscape (if q == "d" then QUOTE else SQUOTE) (decStr name))
+  | ["pyeval", q, body] =>
+    (match pyEvalBody (if q == "d" then QUOTE else SQUOTE) (decStr body) with
+     | some v => "S" ++ encStr v
+     | none => "N")
   | ["likebatch", js, table] =>
     String.ofList ((decTable table).map (fun r => if likeImpl (decBool js) (r.getD 0 []) (r.getD 1 []) then '1' else '0'))
   | ["likespec", table] =>
